@@ -3,6 +3,8 @@
 From BW Require Import SpecKeys.
 From BWP Require Import TextFacts Keys_proofs F64_proofs.
 From Coq Require Import ZArith.
+From BW Require Import Validators.
+From BWP Require Import Keys2_proofs.
 
 (* No violation iff every adjacent pair of keys is in order (any number of keys;
    `viol a b` = "b is strictly out of order after a" in the chosen direction/format). *)
@@ -82,3 +84,45 @@ Theorem C06_total_order_injective : forall a b, a < 2^64 -> b < 2^64 ->
   f64_total_key a = f64_total_key b -> a = b.
 Proof. exact f64_total_key_injective. Qed.
 Print Assumptions C06_total_order_injective.
+
+(* With keep-sorted-pattern the keys are exactly, in order, one per matching line: the value group's text when the group took part in the match, else the whole match; non-matching lines contribute nothing (KeysRx in proofs/Keys2_proofs.v). *)
+Theorem C06_keys_with_pattern o pat idx ls ks :
+  keys_rx o pat idx ls = Ok ks <-> KeysRx o pat idx ls ks.
+Proof. exact (keys_rx_spec o pat idx ls ks). Qed.
+Print Assumptions C06_keys_with_pattern.
+
+(* At validator level (attribute parsing, content slice, key extraction included): no diagnostic iff every key is in order with its predecessor. *)
+Theorem C06_validator_ok_iff_sorted o file b v asc content ks :
+  get_attr (T "keep-sorted") (b_attrs b) = Some v ->
+  parse_direction v = Ok asc ->
+  parse_format (b_attrs b) = Ok Lexicographic ->
+  content_of file b = Ok content ->
+  keys_of o (sort_pat b) E_SORT_PATTERN content = Ok ks ->
+  (keep_sorted o file b = Ok [] <-> lex_sorted asc ks).
+Proof. exact (keep_sorted_lex_ok_iff o file b v asc content ks). Qed.
+Print Assumptions C06_validator_ok_iff_sorted.
+
+(* Otherwise the one diagnostic is the first key strictly out of order, at its own byte range, with the direction as data. *)
+Theorem C06_validator_reports_first_bad o file b v asc content ks k :
+  get_attr (T "keep-sorted") (b_attrs b) = Some v ->
+  parse_direction v = Ok asc ->
+  parse_format (b_attrs b) = Ok Lexicographic ->
+  content_of file b = Ok content ->
+  keys_of o (sort_pat b) E_SORT_PATTERN content = Ok ks ->
+  lex_first_bad asc ks k ->
+  keep_sorted o file b =
+  (let? sev := sev_of (b_attrs b) in Ok [key_diag b k V_SORTED sev [dir_word asc]]).
+Proof. exact (keep_sorted_lex_first_bad o file b v asc content ks k). Qed.
+Print Assumptions C06_validator_reports_first_bad.
+
+(* Zero or one key: nothing is compared (in particular nothing is parsed as a number). *)
+Theorem C06_single_key_never_compared o file b v asc fmt content ks :
+  get_attr (T "keep-sorted") (b_attrs b) = Some v ->
+  parse_direction v = Ok asc ->
+  parse_format (b_attrs b) = Ok fmt ->
+  content_of file b = Ok content ->
+  keys_of o (sort_pat b) E_SORT_PATTERN content = Ok ks ->
+  (length ks <= 1)%nat ->
+  keep_sorted o file b = Ok [].
+Proof. exact (keep_sorted_lazy o file b v asc fmt content ks). Qed.
+Print Assumptions C06_single_key_never_compared.
